@@ -31,14 +31,16 @@ CHECKS = {
              'reference projection within 2^-46; (S) the exponent-bit scaling, clamp and bit interleaving give exactly floor of the scaled in-cell coordinates for every depth 0..29 '
              '(symbolic) and every interface value; (G) out-of-range or NaN latitudes panic. Counter-examples are confirmed natively against a reference projection + point-in-diamond oracle.',
         design_ref='DESIGN.md sections 3.2, 3.3, 5 C01',
-        note='Assumes the libm contracts (validated on the platform libm each run) and the assume-guarantee cut at Layer::d0h_lh_in_d0c (R proved on the producer, assumed by the consumer). '
+        note='Assumes the libm contracts (validated on the platform libm each run) and the assume-guarantee cut at Layer::d0h_lh_in_d0c (R proved on the producer, assumed by the consumer; '
+             'the north-cap part of R takes 20-25 min per harness and runs in the thorough tier only -- the quick tier covers the north cap end to end at depths 0..3). '
              'P in the polar caps: base cell, h, sign and range of l for every position; the exact value of l (a second symbolic 53x53 multiplier) only in the thorough tier for cosines with <= 6 significant bits. |lon| <= 25.2.',
     ),
     'C02': dict(
         text='hash at depth d equals hash at depth d+1 shifted by 2 bits for every finite in-cell coordinate pair satisfying lemma R (all doubles, incl. values on and 1 ulp around every cell border) '
              'and every d in 0..28 (symbolic); lemma R itself is decided on the real producer for every position. Non-adjacent depths follow by transitivity.',
         design_ref='DESIGN.md sections 3.3, 5 C02',
-        note='Assume-guarantee cut at the depth-independent Layer::d0h_lh_in_d0c (no self parameter: depth independence by signature); libm contracts for lemma R.',
+        note='Assume-guarantee cut at the depth-independent Layer::d0h_lh_in_d0c (no self parameter: depth independence by signature); libm contracts for lemma R '
+             '(north-cap part of R: thorough tier only, 20-25 min per harness).',
     ),
     'C03': dict(
         text='Plane-level consistency of every accessor, per depth, for every cell: centre = plane oracle and hashes back with offsets (0.5, 0.5); interior offsets k/1024 hash back and are recovered; '
